@@ -39,7 +39,7 @@ class Decls:
         prev = self.consts.get(name)
         assert prev in (None, sort), (name, prev, sort)
         self.consts[name] = sort
-        return T(sort, name)
+        return T(sort, q(name))
 
     def fresh(self, base: str, sort: str) -> T:
         return self.const(f"{base}!{next(self.counter)}", sort)
